@@ -71,18 +71,18 @@ func plans(o hreg.Opts) []chainPlan {
 		add(chain.RandomConfig(rng.Int63n(1<<30)), 32, "mixed", 32)
 		return p
 	}
-	for i := 0; i < 12; i++ {
-		add(chain.Fast(common.Epoch(rng.Intn(3)), common.Epoch(2+rng.Intn(2)), common.Epoch(4+rng.Intn(2)), common.Epoch(6+rng.Intn(2))), 32+16*rng.Intn(5), "mixed", 96)
+	for i := 0; i < 10; i++ {
+		add(chain.Fast(common.Epoch(rng.Intn(3)), common.Epoch(2+rng.Intn(2)), common.Epoch(4+rng.Intn(2)), common.Epoch(6+rng.Intn(2))), 32+16*rng.Intn(5), "mixed", 72)
 	}
-	add(chain.Fast(N, N, N, N), 64, "mixed", 120)
-	add(chain.Fast(0, N, N, N), 64, "mixed", 120)
-	add(chain.Fast(0, 0, N, N), 64, "poor", 120)
-	add(chain.Fast(0, 0, 0, N), 64, "rich", 120)
-	add(chain.Fast(0, 0, 0, 0), 128, "mixed", 120)
-	add(chain.MinimalAt(1, 2, 3, 4), 64, "mixed", 96)
-	add(chain.Minimal(), 64, "mixed", 64)
-	for i := 0; i < 24; i++ {
-		add(chain.RandomConfig(rng.Int63n(1<<30)), 16+16*rng.Intn(8), []string{"mixed", "uniform", "rich", "poor"}[rng.Intn(4)], 64)
+	add(chain.Fast(N, N, N, N), 64, "mixed", 64)
+	add(chain.Fast(0, N, N, N), 64, "mixed", 64)
+	add(chain.Fast(0, 0, N, N), 64, "poor", 64)
+	add(chain.Fast(0, 0, 0, N), 64, "rich", 64)
+	add(chain.Fast(0, 0, 0, 0), 128, "mixed", 64)
+	add(chain.MinimalAt(1, 2, 3, 4), 64, "mixed", 64)
+	add(chain.Minimal(), 64, "mixed", 48)
+	for i := 0; i < 12; i++ {
+		add(chain.RandomConfig(rng.Int63n(1<<30)), 16+16*rng.Intn(8), []string{"mixed", "uniform", "rich", "poor"}[rng.Intn(4)], 56)
 	}
 	return p
 }
@@ -202,13 +202,13 @@ func genChain(o hreg.Opts, p chainPlan, mutants bool) (out seqOut) {
 	}
 	spec := c.Spec
 	cfgToks := flat.SpecTokens(spec)
-	perBlock := o.Pick(28, 1<<20)
+	perBlock := o.Pick(28, 120)
 	perKind := o.Pick(2, 0)
 	rng := o.Rand()
 	stat("chain_config", p.cfg.ID)
 	var gapPre common.BeaconState // state before the first of a run of skipped slots
 	slots := p.slots
-	if !mutants && !o.Thorough() {
+	if !mutants {
 		slots *= 3 // valid blocks are cheap (no mutant volume): longer chains for c01
 	}
 	for i := 0; i < slots; i++ {
@@ -391,10 +391,59 @@ type preState struct {
 	gvr  common.Root
 }
 
+// exec answers the lines of a stateful stream. Sequences (separated by `reset`) are independent, so batches of
+// them are processed by a pool of workers; the answers are written in input order.
 func exec(o hreg.Opts, r *bufio.Scanner, w *bufio.Writer) error {
-	var cur *preState
+	const batchLines = 4000
+	var batch [][]string // sequences; each ends with its `reset` line if it had one
+	var cur []string
+	n := 0
+	flush := func() {
+		outs := make([][]string, len(batch))
+		var wg sync.WaitGroup
+		sem := make(chan struct{}, 12)
+		for i := range batch {
+			wg.Add(1)
+			go func(i int) {
+				defer wg.Done()
+				sem <- struct{}{}
+				defer func() { <-sem }()
+				outs[i] = execSeq(batch[i])
+			}(i)
+		}
+		wg.Wait()
+		for _, l := range outs {
+			for _, x := range l {
+				w.WriteString(x)
+				w.WriteByte('\n')
+			}
+		}
+		batch, n = nil, 0
+	}
 	for r.Scan() {
 		line := r.Text()
+		cur = append(cur, line)
+		n++
+		if strings.TrimSpace(line) == "reset" {
+			batch = append(batch, cur)
+			cur = nil
+			if n >= batchLines {
+				flush()
+			}
+		}
+	}
+	if len(cur) > 0 {
+		batch = append(batch, cur)
+	}
+	flush()
+	return r.Err()
+}
+
+// execSeq answers one sequence (state is not shared between sequences).
+func execSeq(lines []string) []string {
+	var cur *preState
+	res := make([]string, 0, len(lines))
+	for _, line := range lines {
 		out := "bad-op"
 		t := strings.TrimSpace(line)
 		switch {
@@ -415,10 +464,9 @@ func exec(o hreg.Opts, r *bufio.Scanner, w *bufio.Writer) error {
 				out = hreg.Guard(func() string { return runBlock(cur, kv) })
 			}
 		}
-		w.WriteString(out)
-		w.WriteByte('\n')
+		res = append(res, out)
 	}
-	return r.Err()
+	return res
 }
 
 func loadPre(kv map[string]string) (p *preState) {
